@@ -20,6 +20,8 @@ func TestVerifStream(t *testing.T) {
 			return verifRehash(ws)
 		case strings.HasPrefix(ws[0], "pb."):
 			return verifPb(ws)
+		case strings.HasPrefix(ws[0], "sop."):
+			return verifStoreOp(ws)
 		}
 		return "", false
 	})
